@@ -20,7 +20,8 @@ func checkC11(c *Ctx) {
 	c11BareKeys(c)
 	c11TraversalSteps(c)
 	c11LabelsReadBack(c)
-	c.NotCovered("exactness of number formatting, key ordering, equality of values after read-back")
+	c11NumberExact(c)
+	c.NotCovered("key ordering, equality of values after read-back")
 	c.NotCovered("the string-literal scanner (scan_string_lit.rl, Ragel generated): how a literal is cut into slices before the escape table is applied")
 }
 
@@ -546,4 +547,54 @@ func c11LabelsReadBack(c *Ctx) {
 		}
 	}
 	c.Floor("labels.decode results", n, 2, "decoded literal and the empty label")
+}
+
+// R6: numbers are written with all their digits.
+func c11NumberExact(c *Ctx) {
+	c.Rule("R6 number.exact: in hclwrite every conversion of a *big.Float (the content of a cty number) to text or to a machine number is exact: (*big.Float).Text('f', -1) only — no String()/Format/Append/Text with a precision (10 significant digits by default), no Float64/Float32/Int64/Uint64, no fmt verb applied to the float — so a generated number literal reads back as the same number")
+	n := 0
+	for _, fn := range c.P.pkgFuncs("hclwrite") {
+		for _, b := range fn.Blocks {
+			for _, ins := range b.Instrs {
+				call, ok := ins.(*ssa.Call)
+				if !ok {
+					continue
+				}
+				cal := call.Call.StaticCallee()
+				if cal != nil && cal.Signature.Recv() != nil && isNamed(cal.Signature.Recv().Type(), "math/big", "Float") {
+					n++
+					c.Fn(FuncName(fn))
+					c.Sites++
+					key := FuncName(fn) + ":call[big.Float." + cal.Name() + "]"
+					switch cal.Name() {
+					case "Text":
+						f, ok1 := constInt(call.Call.Args[1])
+						p, ok2 := constInt(call.Call.Args[2])
+						c.Check(ok1 && ok2 && f == 'f' && p == -1, "number.exact", key, call.Pos(), "Text('f', -1): all digits", "the number is formatted with a format or precision other than ('f', -1): digits are lost or an exponent form is produced")
+					case "String", "Format", "Append", "Float64", "Float32", "Int64", "Uint64", "MarshalText", "GobEncode":
+						c.Fail("number.exact", key, call.Pos(), "the number passes through big.Float."+cal.Name()+", which keeps 10 significant digits (or the range of a machine number): a literal with more digits reads back as a different number")
+					default:
+						c.OK("number.exact", key, call.Pos(), "does not produce text")
+					}
+					continue
+				}
+				// fmt verbs applied to a *big.Float
+				if cal != nil && cal.Pkg != nil && cal.Pkg.Pkg.Path() == "fmt" {
+					for _, a := range call.Call.Args {
+						if sl, ok := a.(*ssa.Slice); ok {
+							if al, ok := sl.X.(*ssa.Alloc); ok {
+								for _, st := range storesInto(al) {
+									if mi, ok := st.Val.(*ssa.MakeInterface); ok && isNamed(mi.X.Type(), "math/big", "Float") {
+										n++
+										c.Fail("number.exact", FuncName(fn)+":call[fmt."+cal.Name()+"]", call.Pos(), "a *big.Float is formatted through package fmt (10 significant digits by default)")
+									}
+								}
+							}
+						}
+					}
+				}
+			}
+		}
+	}
+	c.Floor("number.exact conversions", n, 1, "the number arm of appendTokensForValue")
 }
